@@ -220,7 +220,9 @@ def _run_actor(case: dict[str, Any], v: Verdict) -> None:
                 ctl.append((now, op[0], actor.is_running))
                 snapshot = set(actor.tasks)
                 task = asyncio.create_task(actor.stop() if op[0] == "stop" else actor.wait())
-                call = {"op": op[0], "t": now, "task": task, "snapshot": snapshot, "t_done": None}
+                call = {"op": op[0], "t": now, "task": task, "snapshot": snapshot, "t_done": None,
+                        # tasks of the service that had already failed when the call was made
+                        "failed_at_call": [t for t in snapshot if t.done() and not t.cancelled() and t.exception() is not None]}
                 task.add_done_callback(lambda _t, c=call: c.__setitem__("t_done", loop.time()))
                 calls.append(call)
             elif op[0] == "extra":
@@ -367,6 +369,12 @@ def _judge_actor(case: dict[str, Any], v: Verdict, trace: list[Any], ctl: list[A
                 v.fail(f"{name} raised a group containing CancelledError")
             if c["exc"] is not None and not isinstance(c["exc"], BaseExceptionGroup):
                 v.fail(f"{name} raised {type(c['exc']).__name__} instead of an exception group")
+            # also with other waiters around: a task that had already failed when stop() was called is in the set
+            # stop() waits on, so stop() itself must surface its error
+            for task in c.get("failed_at_call", []):
+                if not any(m is task.exception() for m in members):
+                    v.fail(f"{name} did not surface {task.exception()!r} of a task that had already failed when it was "
+                           f"called (it surfaced {[repr(m) for m in members]})")
             if not had_wait:
                 want = []
                 for task in c["snapshot"]:
@@ -449,7 +457,9 @@ def _run_service(case: dict[str, Any], v: Verdict) -> None:
             elif op[0] in ("stop", "wait"):
                 snapshot = set(svc.tasks)
                 task = asyncio.create_task(svc.stop() if op[0] == "stop" else svc.wait())
-                call = {"op": op[0], "t": now, "task": task, "snapshot": snapshot, "t_done": None}
+                call = {"op": op[0], "t": now, "task": task, "snapshot": snapshot, "t_done": None,
+                        # tasks of the service that had already failed when the call was made
+                        "failed_at_call": [t for t in snapshot if t.done() and not t.cancelled() and t.exception() is not None]}
                 task.add_done_callback(lambda _t, c=call: c.__setitem__("t_done", loop.time()))
                 calls.append(call)
             elif op[0] == "extra" and svc.tasks:
@@ -489,6 +499,10 @@ def _run_service(case: dict[str, Any], v: Verdict) -> None:
         members = _group_members(c["exc"])
         if any(isinstance(m, asyncio.CancelledError) for m in members):
             v.fail(f"{name} raised a group containing CancelledError")
+        for task in c.get("failed_at_call", []):
+            if not any(m is task.exception() for m in members):
+                v.fail(f"{name} did not surface {task.exception()!r} of a task that had already failed when it was called "
+                       f"(it surfaced {[repr(m) for m in members]})")
         if not had_wait:
             want = [t.exception() for t in c["snapshot"] if t.done() and not t.cancelled() and t.exception() is not None]
             if {id(m) for m in members} != {id(w) for w in want}:
